@@ -15,3 +15,10 @@ Theorem C17_editors_append : forall buf r,
   append_enc buf r = match r with Ok v => Ok (buf ++ enc v) | Err e => Err e | Panic => Panic end.
 Proof. exact append_enc_frame. Qed.
 Print Assumptions C17_editors_append.
+
+(* the selector on byte positions (SelWalk.v): what it appends for an encoding does not depend on the buffer *)
+From JB Require Import SelWalk SelWalkProofs.
+Theorem C17_bytes_selection_appends : forall v ps m pre, wfb v = true ->
+  select_w (enc v) ps m pre = shift_result pre (select_w (enc v) ps m []).
+Proof. exact select_w_frame. Qed.
+Print Assumptions C17_bytes_selection_appends.
